@@ -52,7 +52,7 @@ func register(p *Prop) {
 
 // explainExtra: clauses added after the third seeding round (appended to each property's explanation).
 var explainExtra = map[string]string{
-	"C01": "Also decided: wire strings / error texts are never used as format strings in encoders, decoders and opaque types (R-FORMAT-ARG); every restored field comes from the wire alone (R-CODEC A8); the encodings of the branches of a multi-cause node do not alias one loop variable (R-LOOP-ALIAS). After round 4: a field that travels only in the wire message is read back from it (R-CODEC A9); what an unknowing process stores is the received field verbatim. After round 5: the formatter state's Write passes every byte but the newline through (R-WRITE-FAITHFUL); errno predicates and the native/opaque decision (R-ERRNO-TABLE). After round 6: every message-ownership announcement in formatRecursive is followed by the elision of the causes' texts (R-ELIDE); decodeWrapper/decodeLeaf return a layer of their own for every received layer (R-DECODE-RESULT); the special-case printer's arms print the wrapped value's own Error() (R-SPECIAL-TEXT, two known findings). After round 7: decoding never writes into the message it decodes (R-DECODE-READONLY); the renderer gives back every newline it takes (R-WRITE-FAITHFUL, separator clause; D21 fixed).",
+	"C01": "Also decided: wire strings / error texts are never used as format strings in encoders, decoders and opaque types (R-FORMAT-ARG); every restored field comes from the wire alone (R-CODEC A8); the encodings of the branches of a multi-cause node do not alias one loop variable (R-LOOP-ALIAS). After round 4: a field that travels only in the wire message is read back from it (R-CODEC A9); what an unknowing process stores is the received field verbatim. After round 5: the formatter state's Write passes every byte but the newline through (R-WRITE-FAITHFUL); errno predicates and the native/opaque decision (R-ERRNO-TABLE). After round 6: every message-ownership announcement in formatRecursive is followed by the elision of the causes' texts (R-ELIDE); decodeWrapper/decodeLeaf return a layer of their own for every received layer (R-DECODE-RESULT); the special-case printer's arms print the wrapped value's own Error() (R-SPECIAL-TEXT, two known findings). After round 7: decoding never writes into the message it decodes (R-DECODE-READONLY); the renderer gives back every newline it takes (R-WRITE-FAITHFUL, separator clause; D21 fixed). After round 8: the same multi-cause clause of R-ELIDE (the text of a wrapper above a foreign multi-cause Formatter is stable across a hop).",
 	"C02": "Also decided: the Error() shape of the opaque types (the text an unknowing process contributes to identity), no standard-library errors.Is/As inside the library (R-STD-IDENTITY), no wire text used as a format in codecs. After round 5: Mark always attaches the portable mark. After round 6: decoders decline on structural grounds only, never on the value of a member (R-DECLINE); no received layer is dropped (R-DECODE-RESULT). After round 7: a type-key extension is the annotation itself, not a shortened form (R-KEY-MARKER); the type-name part of a key is the type's own String() (R-TYPENAME-RAW).",
 	"C03": "Also decided: the special-case printer declares safe only a sentinel's own text - text equality, not an Is/IsAny match, which an Is(error) bool method can fake (R-SPECIAL-LEAF); a decoder that delegates to another brings its (legacy, encoder-less) keys along when the wire message is classified. After round 4: layer text handed to a helper is followed into it (raw writes into the final buffer stay guarded, R-ESC interprocedural).",
 	"C04": "Also decided: for standard-library wrappers with encoders (PathError, LinkError, SyscallError) the wire message equals the prefix part of the type's own Error(), read from the standard-library source (R-WIRE-MSG W3). After round 4: the opaque fallbacks store the received fields verbatim (no constant substituted on some path); a redactable prefix is sent in its StripMarkers() form. After round 5: one separator constant at every composer and decomposer (R-SEP). After round 6: no received layer is dropped or replaced by its cause (R-DECODE-RESULT); read-only operations never rewrite the details an opaque value stores (R-EFFECT, scoped). After round 7: decoding never writes into the received message (R-DECODE-READONLY); a forwarding encoder does not recompute reportable strings from a nested error it decoded (R-REENCODE-STABLE; D22 fixed).",
@@ -60,7 +60,7 @@ var explainExtra = map[string]string{
 	"C06": "Also decided: the wire message of a legacy key without an encoder is classified as plain text - never relabelled redactable. After round 4: layer text is never transformed between collection and escaping on the redactable path only; helpers that receive layer text are followed. After round 5: Write compares its input with the newline only and never takes buffered text back (R-WRITE-FAITHFUL).",
 	"C07": "Also decided: for two non-nil errors WithSecondaryError/CombineErrors always build the wrapper holding both (R-SECONDARY-ATTACH); barrier / secondary constructors never skip on a condition computed from the error (R-ALWAYS-WRAPS); slot agreement, registered types and redactable conversions of the barrier and secondary-error types. After round 6: the hidden error is handed to the printer as a value in the verbose rendering, not rendered to text first (R-DETAIL-PRINT, as-a-value clause). After round 7: GetDomain reads the single-cause chain only (R-DOMAIN-GETTER); the renderer keeps empty lines, so Handled keeps the hidden text exactly (R-WRITE-FAITHFUL, separator clause).",
 	"C08": "Also decided: Mark always wraps (R-ALWAYS-WRAPS); chain walks use the current layer, not the root of the walk (R-WALK-CURRENT); a memoised identity function is keyed by what its value is computed from (R-MEMO); no standard-library identity tests inside the library. After round 5: a layer's own Is method is asked for every pair, in Is and IsAny alike (R-IS-METHOD); Is/IsAny range over UnwrapMulti itself. After round 7: a type-key extension (ErrorKeyMarker) is the annotation itself (R-KEY-MARKER).",
-	"C09": "Also decided: the formatting state forwards Flag/Width/Precision of the caller's fmt.State unchanged (R-STATE-FLAGS); the special-case printer's arms for standard-library wrappers print what the wrapper's own Error() prints, by symbolic execution of both over the receiver's fields (R-SPECIAL-TEXT). After round 4: details that a decoder reads by position are written at fixed positions (R-CODEC A2). After round 5: the Formattable adapter hands every verb to FormatError; detail formatters print stored texts, never use them as formats; the whole-text arms of the special-case printer print Error(); Write is faithful. After round 6: message ownership is honoured at every site of formatRecursive (R-ELIDE); hidden errors are printed as values. After round 7: a layer prints its own detail whatever its cause chain contains (R-DETAIL-PRINT, cause-independence clause); separators written for pending newlines are never empty (R-WRITE-FAITHFUL; D21 fixed).",
+	"C09": "Also decided: the formatting state forwards Flag/Width/Precision of the caller's fmt.State unchanged (R-STATE-FLAGS); the special-case printer's arms for standard-library wrappers print what the wrapper's own Error() prints, by symbolic execution of both over the receiver's fields (R-SPECIAL-TEXT). After round 4: details that a decoder reads by position are written at fixed positions (R-CODEC A2). After round 5: the Formattable adapter hands every verb to FormatError; detail formatters print stored texts, never use them as formats; the whole-text arms of the special-case printer print Error(); Write is faithful. After round 6: message ownership is honoured at every site of formatRecursive (R-ELIDE); hidden errors are printed as values. After round 7: a layer prints its own detail whatever its cause chain contains (R-DETAIL-PRINT, cause-independence clause); separators written for pending newlines are never empty (R-WRITE-FAITHFUL; D21 fixed). After round 8: a foreign multi-cause error rendered through its own Format method or formatSimple always gets its branches elided (R-ELIDE, multi-cause clause; D23 fixed).",
 	"C10": "Also decided: no annotation constructor skips the annotation on a condition computed from the error (R-ALWAYS-WRAPS); walks use the current layer (R-WALK-CURRENT). After round 4: every layer of the chain looks into its branches in Is/IsAny/As; format strings are always formatted (R-FORMAT-STORED). After round 5: a join owns its branch slice (R-OWNED-BRANCHES). After round 6: no constructor boxes a pointer that can be nil into its error result (R-BOXED-NIL; constructor helpers that hand the wrapper out under its pointer type are part of the constructor census); the walks of Is/IsAny never end early (R-LOOP-EXITS). After round 7: the documented pass-through of WithSafeDetails / WithContextTags happens under exactly the documented condition (R-PASSTHROUGH-GUARD); UnwrapMulti answers by the protocol alone (R-MULTI-UNCOND).",
 	"C11": "Also decided: the code accessors return only the found code or the contract's constants (R-CODE-GETTER); a native errno is rebuilt only for an identical platform string; an empty printed stack is no stack (R-STACK-EMPTY); every restored field comes from the wire alone (A8). After round 4: every key that sends a payload has a decoder (R-PAYLOAD-DECODER); the safe details of encoder-less types go out untransformed (R-GENERIC-PATH); the printed stack is the whole stack (R-STACK-WHOLE). After round 6: decoders decline on structural grounds only (R-DECLINE); a list annotation that travels as the safe details is sent and restored as itself (R-LIST-ROUNDTRIP); every printed stack entry yields a frame (R-FRAME-PER-ENTRY). After round 7: the pkg/errors adapters send the whole StackTrace() (R-STACK-WHOLE).",
 	"C12": "Also decided: no standard-library identity test decides what is printed as safe; per-branch encodings do not alias one variable. After round 4: no safe-carrying constructor skips its annotation (R-ALWAYS-WRAPS). After round 5: a hidden error rendered into safe details is rendered verbosely; identity/type-name functions are not memoised under a lossy key. After round 6: read-only operations (accessors, SafeDetails, report building) never rewrite what an error carries as safe details (R-EFFECT, scoped). After round 7: WithSafeDetails returns the error unchanged only for an empty format AND no arguments (R-PASSTHROUGH-GUARD).",
